@@ -484,7 +484,13 @@ class LibMixin:
             if unknown:
                 recv = self.coerce(recv, v.ty, st)
             v = self.coerce(v, recv.ty, st)
-            self.assign_to(recv_ast, SV(recv.ty, [smt.Concat(a, b) for a, b in zip(recv.ts, v.ts)]), st, exc)
+            new = [smt.Concat(a, b) for a, b in zip(recv.ts, v.ts)]
+            if recv.ty.args[0].kind == "ref" and "cons" in self.defined_specs:
+                # instance of the lemma cons(xs + ys) == cons(xs) + cons(ys) (proved once per function, by induction on ys)
+                self.lemmas_used.add("cons_concat")
+                mk = lambda ts: self.spec_app("cons", [SV(ListT(Ref()), ts)], st).ts[0]      # noqa: E731
+                st.assume(smt.Eq(mk(new), smt.Concat(mk(recv.ts), mk(v.ts))))
+            self.assign_to(recv_ast, SV(recv.ty, new), st, exc)
             return [(st, NONE)]
         if name == "remove":
             if unknown or len(recv.ts) != 1:
